@@ -4,6 +4,7 @@ go 1.16
 
 require (
 	github.com/ipfs/go-cid v0.0.7
+	github.com/ipfs/go-datastore v0.4.5
 	github.com/ipfs/ipfs-cluster v0.0.0
 	github.com/libp2p/go-libp2p-core v0.8.5
 	github.com/libp2p/go-libp2p-gorpc v0.1.3
